@@ -62,20 +62,22 @@ type World struct {
 	x       *Exec
 	// rawStamp: dumps show the lock-duration stamp (C10 only)
 	rawStamp bool
+	flipText map[string]string // current text of flip operators
 }
 
 func newWorld(x *Exec) *World {
 	w := &World{
-		byInst:  map[uintptr]int{},
-		byCfg:   map[uintptr]int{},
-		errs:    map[string]error{},
-		errName: map[error]string{},
-		logger:  log.New(io.Discard, "w", 0),
-		ch:      make(chan int),
-		mp:      map[string]int{"a": 1},
-		clos:    map[string]ClosureSpec{},
-		ncons:   map[string]int{},
-		x:       x,
+		byInst:   map[uintptr]int{},
+		byCfg:    map[uintptr]int{},
+		errs:     map[string]error{},
+		errName:  map[error]string{},
+		logger:   log.New(io.Discard, "w", 0),
+		ch:       make(chan int),
+		mp:       map[string]int{"a": 1},
+		clos:     map[string]ClosureSpec{},
+		flipText: map[string]string{},
+		ncons:    map[string]int{},
+		x:        x,
 	}
 	return w
 }
